@@ -345,31 +345,26 @@ func runRT(c RTCase, x *h.Ctx) {
 }
 
 func TestRoundTrip(t *testing.T) {
-	h.Check(t, h.Spec[RTCase]{Prop: "C18", Leg: "roundtrip", Gen: genRT, Run: runRT, Render: renderRT})
-}
-
-// TestKindsCoverRegistry is a guard against vacuity: every concrete type registered for the
-// message interfaces must be instantiable by the filler (it panics on unsupported kinds).
-func TestKindsCoverRegistry(t *testing.T) {
-	if h.Replaying() {
-		t.Skip()
-	}
-	var names []string
-	for _, k := range kinds {
-		for ft := 0; ft < k.typ.NumField(); ft++ {
-			sf := k.typ.Field(ft)
-			if sf.Type.Kind() != reflect.Interface {
-				continue
-			}
-			ti := wire.GetTypeInfo(sf.Type)
-			for b, crt := range ti.ByteToType {
-				names = append(names, fmt.Sprintf("%s/%02x=%v", k.name, b, crt))
+	if !h.Replaying() {
+		// guard against vacuity: the concrete types registered for the message / key interfaces
+		// must be reachable by the generator (the filler panics on an unsupported kind)
+		var names []string
+		for _, k := range kinds {
+			for ft := 0; ft < k.typ.NumField(); ft++ {
+				sf := k.typ.Field(ft)
+				if sf.Type.Kind() != reflect.Interface || skipField(sf) {
+					continue
+				}
+				for b, crt := range wire.GetTypeInfo(sf.Type).ByteToType {
+					names = append(names, fmt.Sprintf("%s/%02x=%v", k.name, b, crt))
+				}
 			}
 		}
+		sort.Strings(names)
+		if len(names) < 25 {
+			t.Fatalf("only %d registered concrete types reachable: %v", len(names), names)
+		}
+		h.Note("C18", "roundtrip", "registered concrete types reachable from the top-level kinds: %d", len(names))
 	}
-	sort.Strings(names)
-	if len(names) < 25 {
-		t.Fatalf("only %d registered concrete types reachable: %v", len(names), names)
-	}
-	h.Note("C18", "roundtrip", "registered concrete types reachable by the generator: %d", len(names))
+	h.Check(t, h.Spec[RTCase]{Prop: "C18", Leg: "roundtrip", Gen: genRT, Run: runRT, Render: renderRT})
 }
